@@ -43,6 +43,11 @@ class Stage:
             return ("ok", "")
         if rc == "timeout":
             return ("inconclusive", "watchdog fired (not a verdict)")
+        if rc == 3 and outpath and os.path.exists(outpath + ".hang"):
+            # bounded-progress violation recorded by the monitor itself (an operation that normally takes
+            # milliseconds did not return within a deadline several orders of magnitude larger)
+            h = json.load(open(outpath + ".hang"))
+            return ("violation", f"operation did not return within {h.get('deadline_s')}s: {json.dumps(h.get('witness'))[:400]}", h["sig"])
         tail = ""
         try:
             tail = open(logpath, errors="replace").read()[-400:]
